@@ -8,6 +8,8 @@
 //@harness name=bucket_week kind=bounded bound="ts < 2^36 s" tier=quick timeout=600
 //@harness name=bucket_month kind=bounded bound="ts < 2^36 s" tier=quick timeout=600
 //@harness name=bucket_year kind=bounded bound="ts < 2^36 s" tier=quick timeout=600
+//@harness name=bucket_hour_40 kind=bounded bound="ts < 2^40 s" tier=thorough timeout=3600 gate=yes
+//@harness name=bucket_day_40 kind=bounded bound="ts < 2^40 s" tier=thorough timeout=3600 gate=yes
 //@obligation C16.bucket_pair.naive_bucket_of.hour : counterexample finder paired with the Verus proof (unit c16_bucket): aligned and containing, HOUR [bounded]
 //@obligation C16.bucket_pair.naive_bucket_of.day : same, DAY [bounded]
 //@obligation C16.bucket_pair.naive_bucket_of.week : same, WEEK [bounded]
@@ -34,3 +36,16 @@
     bucket_harness!(bucket_week, TimeGranularity::Week, 604_800u64, "OBL:C16.bucket_pair.naive_bucket_of.week");
     bucket_harness!(bucket_month, TimeGranularity::Month, 2_592_000u64, "OBL:C16.bucket_pair.naive_bucket_of.month");
     bucket_harness!(bucket_year, TimeGranularity::Year, 31_536_000u64, "OBL:C16.bucket_pair.naive_bucket_of.year");
+
+    macro_rules! bucket_harness_40 { ($name:ident, $gran:expr, $w:expr, $obl:expr) => {
+        #[kani::proof]
+        fn $name() {
+            let ts: u64 = kani::any();
+            kani::assume(ts < (1u64 << 40));
+            let r = naive_bucket_of(ts, &$gran);
+            kani::cover!(ts > (1u64 << 39), "COVER:far_future");
+            assert!(r <= ts && ts - r < $w && r % $w == 0, $obl);
+        }
+    }; }
+    bucket_harness_40!(bucket_hour_40, TimeGranularity::Hour, 3600u64, "OBL:C16.bucket_pair.naive_bucket_of.hour");
+    bucket_harness_40!(bucket_day_40, TimeGranularity::Day, 86_400u64, "OBL:C16.bucket_pair.naive_bucket_of.day");
